@@ -841,6 +841,12 @@ func runHostilePeers(c *fw.Ctx) {
 				})
 			}
 		}
+		for i, dc := range discReasonLattice() {
+			dc := dc
+			dc.Stage = "instead_of_hello"
+			rr := c.Rand("hostile-disc", fmt.Sprint(round), fmt.Sprint(i))
+			c.Case(fmt.Sprintf("rlpx-disc-%d-%d", round, i), dc, func() { attackHelloWithDisc(c, rr, dc) })
+		}
 		c.Nontrivial(fmt.Sprintf("hostile-%d-%d-%x", c.Batch, round, victim.Serialize()[:4]))
 	}
 }
